@@ -1,6 +1,7 @@
 //! C14 cases (one process per case): 2-3 threads build and exit entries on one resource under a forced
 //! interleaving of the library's scheduling points, on the virtual clock.
-//! case: base_ms fresh(0/1) nthreads { nops (B batch inbound | X)* }*  nsteps (tid dt_ms)*
+//! case: base_ms fresh(0/1) nthreads { nops (B batch inbound | X)* }*  nsteps (tid dt_ms)* [F]
+//!       a trailing F: no forced schedule, the threads run freely in parallel (the point trace is then empty)
 //!       a step advances the clock by dt_ms and then lets thread tid run to its next point
 //!       fresh: 0 = the resource saw one inbound entry 60 s earlier, 1 = brand new, 2 = one inbound entry at base
 //! out : all_done ntrace (tid point)* ; nbuilds (tid node_token batch inbound)* ; nexits (tid batch inbound rt)* ;
@@ -76,11 +77,29 @@ pub fn run_case(t: &mut Toks) -> Vec<i128> {
     }
     let sched_ids: Vec<usize> = steps.iter().map(|s| s.0).collect();
     let dts: Vec<u64> = steps.iter().map(|s| s.1).collect();
-    let (trace, all_done) = sched::run(bodies, &sched_ids, |i| {
+    let free = !t.done() && t.s() == "F";
+    let (trace, all_done) = if free {
+        // real concurrency: all threads start together and run without the scheduler
+        let barrier = Arc::new(std::sync::Barrier::new(bodies.len()));
+        let hs: Vec<_> = bodies
+            .into_iter()
+            .map(|b| {
+                let barrier = barrier.clone();
+                std::thread::spawn(move || {
+                    barrier.wait();
+                    std::panic::catch_unwind(std::panic::AssertUnwindSafe(b)).is_ok()
+                })
+            })
+            .collect();
+        let ok = hs.into_iter().all(|h| h.join().unwrap_or(false));
+        (Vec::new(), ok)
+    } else {
+        sched::run(bodies, &sched_ids, |i| {
         if dts[i] > 0 {
             clock::advance_ns(dts[i] as i128 * 1_000_000);
         }
-    }, |n| !n.starts_with("cb:") && !n.starts_with("lk:"));
+    }, |n| !n.starts_with("cb:") && !n.starts_with("lk:"))
+    };
     out.push(all_done as i128);
     out.push(trace.len() as i128);
     for (tid, p) in &trace {
